@@ -382,3 +382,79 @@ func vFireTimer() bool {
 }
 
 func vActiveTimers() int { return 0 }
+
+// ---------------------------------------------------------------------
+// lock-set monitor: an engine facility.  Natively the same commands are run
+// concurrently with writers of the same keys; the replay binary for these
+// harnesses is built with -race, so a genuine unguarded access ends the
+// process with the detector's report.
+
+func vMonitorBegin(cs *clientState) {}
+
+func vMonitorEnd() (unguarded, sections int, detail, shared string, guarded int) { return }
+
+func vRaceWorkload(cs *clientState, kind int, args []string) {
+	if os.Getenv("VERIF_RACE") == "" {
+		return
+	}
+	other := vNewClientOn(cs.disp)
+	third := vNewClientOn(cs.disp)
+	writers := [][]string{{"EXPIRE", "k", "100"}, {"PERSIST", "k"}}
+	switch kind {
+	case preString:
+		writers = append(writers, []string{"SETBIT", "k", "3", "1"}, []string{"SETRANGE", "k", "0", "z"}, []string{"APPEND", "k", "x"})
+	case preList:
+		writers = append(writers, []string{"LSET", "k", "0", "y"}, []string{"LPUSH", "k", "x"}, []string{"LPOP", "k"})
+	case preHash:
+		writers = append(writers, []string{"HSET", "k", "f1", "z"}, []string{"HSET", "k", "f9", "z"}, []string{"HDEL", "k", "f9"})
+	case preSet:
+		writers = append(writers, []string{"SADD", "k", "m9"}, []string{"SREM", "k", "m9"})
+	default:
+		writers = append(writers, []string{"SET", "k", "x"}, []string{"DEL", "k"})
+	}
+	done := make(chan struct{}, 2)
+	go func() {
+		for i := 0; i < 400; i++ {
+			vCmd(other, writers[i%len(writers)]...)
+		}
+		done <- struct{}{}
+	}()
+	go func() {
+		for i := 0; i < 400; i++ {
+			vCmd(third, args...)
+		}
+		done <- struct{}{}
+	}()
+	for i := 0; i < 400; i++ {
+		vCmd(cs, args...)
+	}
+	<-done
+	<-done
+}
+
+func vFieldLogBegin(label string, own *clientState) {}
+func vFieldLogEnd()                                 {}
+
+// vRacePair runs command a on c1 and command b on c2 concurrently.
+func vRacePair(disp *cmdDispatcher, c1, c2 *clientState, a, b int) {
+	n := len(vSessionCommands)
+	run := func(c *clientState, i int, done chan struct{}) {
+		defer func() { recover(); done <- struct{}{} }()
+		for k := 0; k < 300; k++ {
+			if i < n {
+				vCmd(c, vSessionCommands[i]...)
+				if vSessionCommands[i][0] == "MULTI" {
+					vCmd(c, "DISCARD")
+				}
+			} else {
+				x := vNewClientOn(disp)
+				x.unregister()
+			}
+		}
+	}
+	done := make(chan struct{}, 2)
+	go run(c1, a, done)
+	go run(c2, b, done)
+	<-done
+	<-done
+}
